@@ -530,10 +530,7 @@ class Interp:
         if len(cs) == 1:
             return ClassRef(cs[0])
         if mod is not None and e.id in mod.consts:
-            try:
-                return self.repo.fold(mod.consts[e.id], mod)
-            except Unfoldable:
-                return self.eval(mod.consts[e.id], {"__mod__": mod, "__class__": None})
+            return self._module_value(mod, e.id)
         if mod is not None and e.id in getattr(mod, "functions", {}):
             return BoundMethod(None, mod.functions[e.id])
         if mod is not None and e.id in mod.imports:
@@ -541,10 +538,7 @@ class Interp:
             if tgt is not None:
                 m2, nm = tgt
                 if nm in m2.consts:
-                    try:
-                        return self.repo.fold(m2.consts[nm], m2)
-                    except Unfoldable:
-                        return self.eval(m2.consts[nm], {"__mod__": m2, "__class__": None})
+                    return self._module_value(m2, nm)
                 if nm in m2.classes:
                     return ClassRef(m2.classes[nm])
                 if nm in m2.functions:
@@ -693,6 +687,20 @@ class Interp:
                     self.call(k.methods["__post_init__"], obj, [], {})
                     break
         return obj
+
+    def _module_value(self, mod, name):
+        """value of a module-level binding; a mutable one (dict / list / set) exists once per module, as in Python"""
+        cache = self.__dict__.setdefault("_module_values", {})
+        key = (mod.rel, name)
+        if key in cache:
+            return cache[key]
+        try:
+            v = self.repo.fold(mod.consts[name], mod)
+        except Unfoldable:
+            v = self.eval(mod.consts[name], {"__mod__": mod, "__class__": None})
+        if isinstance(v, (dict, list, set, USet)):
+            cache[key] = v
+        return v
 
     def _class_value(self, k, attr):
         """value of a class-level attribute; a mutable one (dict / list / set display) exists once per class, as in
